@@ -23,6 +23,7 @@ pub enum H {
     WSender(WeakSender<Fire>),
     WCaller(WeakCaller<Ask>),
     JoinFut(JoinFut),
+    ConsumeFut(LocalBoxFuture<'static, hannibal::error::Result<crate::log::JoinVal>>),
     SendFut { f: std::pin::Pin<Box<dyn Future<Output = hannibal::error::Result<()>> + Send>>, c0: u16, i0: u16 },
 }
 
@@ -39,6 +40,7 @@ impl H {
             H::WCaller(_) => Hk::WeakCaller,
             H::JoinFut(_) => Hk::Join,
             H::SendFut { .. } => Hk::Fut,
+            H::ConsumeFut(_) => Hk::OwnFut,
         }
     }
 }
@@ -630,6 +632,35 @@ async fn exec_op(env: &Arc<Env>, c: u16, i: u16, op: Op, slots: &mut Vec<Slot>) 
                     end(c, i, Res::Skipped);
                 }
             }
+        }
+        Op::ConsumePark { slot } => {
+            let (tag, hk) = (tag_of(slots, slot), hk_of(slots, slot));
+            begin(c, i, OpK::ConsumePark, hk, Path::NA, tag, 0, slot, 0);
+            let r = if hk == Hk::Owning {
+                let H::Owning(a) = slots[slot as usize].take() else { unreachable!() };
+                // lazy: nothing is sent and nothing is given up before the first poll
+                let f = a.consume();
+                let s = push(slots, Slot::mk(H::ConsumeFut(f), tag, c));
+                log::log(K::Ref { tag, hk: Hk::Owning, delta: -1, c });
+                Res::Handle { slot: s, some: true }
+            } else {
+                push(slots, Slot::empty());
+                Res::Skipped
+            };
+            end(c, i, r);
+        }
+        Op::AwaitParked { slot } if hk_of(slots, slot) == Hk::OwnFut => {
+            // the first poll of the consume future is the stop request: this is the Consume operation proper
+            let tag = tag_of(slots, slot);
+            begin(c, i, OpK::Consume, Hk::Owning, Path::Forcing, tag, 0, slot, 1);
+            let H::ConsumeFut(f) = slots[slot as usize].take() else { unreachable!() };
+            let r = f.await;
+            log::log(K::Ref { tag, hk: Hk::OwnFut, delta: -1, c });
+            log::log(K::RefGone { tag, hk: Hk::OwnFut, c });
+            end(c, i, match r {
+                Ok(v) => Res::Joined(Some(v)),
+                Err(e) => Res::Err(err_name(&e)),
+            });
         }
         Op::AwaitParked { slot } => {
             let (tag, hk) = (tag_of(slots, slot), hk_of(slots, slot));
